@@ -157,11 +157,11 @@ def editElems (act : Act) (path : List PStep) (elems : List Elem) : Option (List
 /-- apply one edit to a source file -/
 def Edit.applyFile (e : Edit) : SrcFile → Option SrcFile
   | .proto _ _ _ => none
-  | .j5s path imports elems =>
+  | .j5s path imports elems decl =>
     match e with
-    | .appendDecl _ el => some (.j5s path imports (elems ++ [el]))
-    | .appendField _ p prop => (editElems (.field prop) p elems).map (.j5s path imports ·)
-    | .appendOption _ p o => (editElems (.option o) p elems).map (.j5s path imports ·)
+    | .appendDecl _ el => some (.j5s path imports (elems ++ [el]) decl)
+    | .appendField _ p prop => (editElems (.field prop) p elems).map (.j5s path imports · decl)
+    | .appendOption _ p o => (editElems (.option o) p elems).map (.j5s path imports · decl)
 
 def Edit.file : Edit → Nat
   | .appendField f _ _ => f
